@@ -191,78 +191,374 @@ theorem forinit_eq {W : World} {env : Ast.Env} {cx : Ctx} (hag : Agree cx env)
           | none => rfl
           | some σ1 => simp [ih σ1]
 
-/-- what the induction proves about a statement / a statement list -/
-def SimS (W : World) (env : Ast.Env) (rt : Ty) (s : Ir.Stmt) (s' : HlslAst.Stmt) : Prop :=
-  ∀ fuel σ, Ast.exec W env rt fuel s' σ = Ir.exec W fuel s σ
-def SimSs (W : World) (env : Ast.Env) (rt : Ty) (b : Ir.Stmts) (b' : HlslAst.Stmts) : Prop :=
-  ∀ fuel σ, Ast.execs W env rt fuel b' σ = Ir.execs W fuel b σ
+
+open RsslVerif.Model.HlslAst (pushStmt)
+
+/-- continue after a statement list that was entered in mode `m` -/
+def bindS (m : Mode) (r : SR) (k : Mode → Store → SR) : SR :=
+  match r with
+  | none => none
+  | some (.normal, σ1) => k .run σ1
+  | some (.seeking, σ1) => k m σ1
+  | some (fl, σ1) => some (fl, σ1)
+
+theorem execs_run_ne_seeking (W : World) (env : Ast.Env) (rt : Ty) (fuel : Nat) :
+    ∀ (b : HlslAst.Stmts) (σ σ' : Store), Ast.execs W env rt fuel .run b σ ≠ some (.seeking, σ')
+  | .nil, σ, σ' => by simp [Ast.execs, endOf]
+  | .cons s r, σ, σ' => by
+    simp only [Ast.execs]
+    cases h : Ast.exec W env rt fuel .run s σ with
+    | none => simp
+    | some p =>
+      obtain ⟨fl, σ1⟩ := p
+      cases fl <;> simp
+      · exact execs_run_ne_seeking W env rt fuel r σ1 σ'
+      · exact execs_run_ne_seeking W env rt fuel r σ1 σ'
+
+theorem bindS_run_of (W : World) (env : Ast.Env) (rt : Ty) (fuel : Nat) (m : Mode) (b : HlslAst.Stmts) (σ : Store)
+    (k : Mode → Store → SR) :
+    bindS m (Ast.execs W env rt fuel .run b σ) k = bindS .run (Ast.execs W env rt fuel .run b σ) k := by
+  cases h : Ast.execs W env rt fuel .run b σ with
+  | none => rfl
+  | some p =>
+    obtain ⟨fl, σ1⟩ := p
+    cases fl <;> try rfl
+    exact absurd h (execs_run_ne_seeking W env rt fuel b σ σ1)
+
+theorem execs_single (W : World) (env : Ast.Env) (rt : Ty) (fuel : Nat) (m : Mode) (s : HlslAst.Stmt) (σ : Store) :
+    Ast.execs W env rt fuel m (.cons s .nil) σ =
+      (match Ast.exec W env rt fuel m s σ with
+        | none => none
+        | some (.normal, σ1) => some (.normal, σ1)
+        | some (.seeking, σ1) => endOf m σ1
+        | some (fl, σ1) => some (fl, σ1)) := by
+  simp only [Ast.execs]
+  cases Ast.exec W env rt fuel m s σ with
+  | none => rfl
+  | some p => obtain ⟨fl, σ1⟩ := p; cases fl <;> simp [endOf]
+
+theorem loopW_ne_seeking (fuel : Nat) (c : Store → Option (Bool × Store)) (b : Store → SR) (i : Store → Option Store) :
+    ∀ (σ σ' : Store), loopW fuel c b i σ ≠ some (.seeking, σ') := by
+  induction fuel with
+  | zero => intro σ σ'; simp [loopW]
+  | succ n ih =>
+    intro σ σ'
+    simp only [loopW]
+    cases c σ with
+    | none => simp
+    | some p =>
+      obtain ⟨bv, σ1⟩ := p
+      cases bv
+      · simp
+      · simp only []
+        cases b σ1 with
+        | none => simp
+        | some q =>
+          obtain ⟨fl, σ2⟩ := q
+          cases fl <;> simp <;> (cases i σ2 <;> simp <;> exact ih _ _)
+
+theorem loopD_ne_seeking (fuel : Nat) (b : Store → SR) (c : Store → Option (Bool × Store)) :
+    ∀ (σ σ' : Store), loopD fuel b c σ ≠ some (.seeking, σ') := by
+  induction fuel with
+  | zero => intro σ σ'; simp [loopD]
+  | succ n ih =>
+    intro σ σ'
+    simp only [loopD]
+    cases b σ with
+    | none => simp
+    | some q =>
+      obtain ⟨fl, σ2⟩ := q
+      cases fl <;> simp <;> (cases c σ2 with
+        | none => simp
+        | some p => obtain ⟨bv, σ3⟩ := p; cases bv <;> simp <;> exact ih _ _)
+
+theorem switchOut_ne_seeking (r1 : SR) (p2 : Store → SR) (σ' : Store) : switchOut r1 p2 ≠ some (.seeking, σ') := by
+  unfold switchOut
+  cases r1 with
+  | none => simp
+  | some p =>
+    obtain ⟨fl, σ2⟩ := p
+    cases fl <;> simp
+    cases p2 σ2 with
+    | none => simp
+    | some q => obtain ⟨fl2, σ3⟩ := q; cases fl2 <;> simp
+
+/-- a statement that is entered executing never reports "still looking for a label" -/
+theorem exec_run_ne_seeking (W : World) (env : Ast.Env) (rt : Ty) (fuel : Nat) :
+    ∀ (s : HlslAst.Stmt) (σ σ' : Store), Ast.exec W env rt fuel .run s σ ≠ some (.seeking, σ')
+  | .expr e, σ, σ' => by
+    simp only [Ast.exec, skip]; cases Ast.eval W env e σ <;> simp [dropVal, normalOf]
+  | .var ty n i, σ, σ' => by
+    simp only [Ast.exec, skip]
+    cases Ast.tyOfName ty with
+    | none => simp
+    | some T => simp only []; cases Ast.execVarDef W env T n i σ <;> simp [normalOf]
+  | .block b, σ, σ' => by simp only [Ast.exec, skip]; exact execs_run_ne_seeking W env rt fuel b σ σ'
+  | .ifThen c b, σ, σ' => by
+    simp only [Ast.exec, skip]
+    cases Ast.condE W env c σ with
+    | none => simp
+    | some p => obtain ⟨bv, σ1⟩ := p; cases bv <;> simp; exact exec_run_ne_seeking W env rt fuel b σ1 σ'
+  | .ifElse c t f, σ, σ' => by
+    simp only [Ast.exec, skip]
+    cases Ast.condE W env c σ with
+    | none => simp
+    | some p =>
+      obtain ⟨bv, σ1⟩ := p
+      cases bv <;> simp
+      · exact exec_run_ne_seeking W env rt fuel f σ1 σ'
+      · exact exec_run_ne_seeking W env rt fuel t σ1 σ'
+  | .for i c n b, σ, σ' => by
+    simp only [Ast.exec, skip]
+    cases Ast.execForInit W env i σ with
+    | none => simp
+    | some σ0 => exact loopW_ne_seeking _ _ _ _ _ _
+  | .while c b, σ, σ' => by simp only [Ast.exec, skip]; exact loopW_ne_seeking _ _ _ _ _ _
+  | .doWhile b c, σ, σ' => by simp only [Ast.exec, skip]; exact loopD_ne_seeking _ _ _ _ _
+  | .break, σ, σ' => by simp [Ast.exec, skip]
+  | .continue, σ, σ' => by simp [Ast.exec, skip]
+  | .ret none, σ, σ' => by simp [Ast.exec, skip]
+  | .ret (some e), σ, σ' => by
+    simp only [Ast.exec, skip]
+    cases Ast.typeOf W.sig env e with
+    | none => simp
+    | some te => simp only []; cases Ast.convR W.P te rt (Ast.eval W env e σ) <;> simp [retOf]
+  | .empty, σ, σ' => by simp [Ast.exec, endOf]
+  | .switch c body, σ, σ' => by
+    cases body with
+    | block b =>
+      simp only [Ast.exec, skip]
+      cases htc : Ast.typeOf W.sig env c with
+      | none => simp
+      | some tc =>
+        simp only []
+        cases hcv : Ast.convR W.P tc (Ast.promote tc) (Ast.eval W env c σ) with
+        | none => simp
+        | some p => obtain ⟨v, σ1⟩ := p; exact switchOut_ne_seeking _ _ _
+    | _ => simp [Ast.exec, skip]
+  | .caseLabel e s, σ, σ' => by simp only [Ast.exec]; exact exec_run_ne_seeking W env rt fuel s σ σ'
+  | .defaultLabel s, σ, σ' => by simp only [Ast.exec]; exact exec_run_ne_seeking W env rt fuel s σ σ'
+
+/-- the label-filling `push` of `generate_scope_block` means "and then this statement" -/
+theorem execs_push (W : World) (env : Ast.Env) (rt : Ty) (fuel : Nat) (s : HlslAst.Stmt) :
+    ∀ (acc : HlslAst.Stmts) (m : Mode) (σ : Store),
+      Ast.execs W env rt fuel m (pushStmt acc s) σ =
+        bindS m (Ast.execs W env rt fuel m acc σ) (fun m' σ' => Ast.execs W env rt fuel m' (.cons s .nil) σ')
+  | .nil, m, σ => by
+    cases m <;> simp [pushStmt, Ast.execs, endOf, bindS]
+  | .cons x .nil, m, σ => by
+    have generic : Ast.execs W env rt fuel m (.cons x (.cons s .nil)) σ =
+        bindS m (Ast.execs W env rt fuel m (.cons x .nil) σ) (fun m' σ' => Ast.execs W env rt fuel m' (.cons s .nil) σ') := by
+      rw [execs_single W env rt fuel m x σ]
+      conv => lhs; rw [Ast.execs]
+      cases Ast.exec W env rt fuel m x σ with
+      | none => rfl
+      | some p =>
+        obtain ⟨fl, σ1⟩ := p
+        cases fl <;> try rfl
+        cases m <;> simp [endOf, bindS]
+    cases x with
+    | caseLabel e s0 =>
+      cases s0 with
+      | empty =>
+        simp only [pushStmt]
+        rw [execs_single, execs_single]
+        have hrun : ∀ σ0, (match Ast.exec W env rt fuel .run s σ0 with
+            | none => none
+            | some (.normal, σ1) => some (Flow.normal, σ1)
+            | some (.seeking, σ1) => endOf m σ1
+            | some (fl, σ1) => some (fl, σ1)) =
+            (match Ast.exec W env rt fuel .run s σ0 with
+            | none => none
+            | some (.normal, σ1) => some (Flow.normal, σ1)
+            | some (.seeking, σ1) => endOf .run σ1
+            | some (fl, σ1) => some (fl, σ1)) := by
+          intro σ0
+          cases h : Ast.exec W env rt fuel .run s σ0 with
+          | none => rfl
+          | some p =>
+            obtain ⟨fl, σ1⟩ := p
+            cases fl <;> try rfl
+            exact absurd h (exec_run_ne_seeking W env rt fuel s σ0 σ1)
+        cases m with
+        | run => simp [Ast.exec, endOf, bindS, execs_single]
+        | seekDefault =>
+          simp only [Ast.exec, endOf, bindS, execs_single]
+        | seekCase T v =>
+          simp only [Ast.exec]
+          cases Ast.typeOf W.sig env e with
+          | none => rfl
+          | some te =>
+            simp only []
+            cases Ast.convR W.P te T (Ast.eval W env e σ) with
+            | none => rfl
+            | some q =>
+              obtain ⟨ev, _⟩ := q
+              simp only []
+              by_cases hv : ev = v
+              · simp only [hv, if_true, endOf, bindS, execs_single]
+                exact hrun σ
+              · simp only [hv, if_false, endOf, bindS, execs_single]
+      | _ => simpa [pushStmt] using generic
+    | defaultLabel s0 =>
+      cases s0 with
+      | empty =>
+        simp only [pushStmt]
+        rw [execs_single, execs_single]
+        have hrun : ∀ σ0, (match Ast.exec W env rt fuel .run s σ0 with
+            | none => none
+            | some (.normal, σ1) => some (Flow.normal, σ1)
+            | some (.seeking, σ1) => endOf m σ1
+            | some (fl, σ1) => some (fl, σ1)) =
+            (match Ast.exec W env rt fuel .run s σ0 with
+            | none => none
+            | some (.normal, σ1) => some (Flow.normal, σ1)
+            | some (.seeking, σ1) => endOf .run σ1
+            | some (fl, σ1) => some (fl, σ1)) := by
+          intro σ0
+          cases h : Ast.exec W env rt fuel .run s σ0 with
+          | none => rfl
+          | some p =>
+            obtain ⟨fl, σ1⟩ := p
+            cases fl <;> try rfl
+            exact absurd h (exec_run_ne_seeking W env rt fuel s σ0 σ1)
+        cases m with
+        | run => simp [Ast.exec, endOf, bindS, execs_single]
+        | seekCase T v => simp only [Ast.exec, endOf, bindS, execs_single]
+        | seekDefault =>
+          simp only [Ast.exec, endOf, bindS, execs_single]
+          exact hrun σ
+      | _ => simpa [pushStmt] using generic
+    | _ => simpa [pushStmt] using generic
+  | .cons x (.cons y r), m, σ => by
+    have ih := execs_push W env rt fuel s (.cons y r)
+    simp only [pushStmt]
+    rw [Ast.execs]
+    conv => rhs; rw [Ast.execs]
+    cases Ast.exec W env rt fuel m x σ with
+    | none => rfl
+    | some p =>
+      obtain ⟨fl, σ1⟩ := p
+      cases fl with
+      | normal => simp only []; rw [ih .run σ1]; exact (bindS_run_of W env rt fuel m _ σ1 _).symm
+      | seeking => simp only []; rw [ih m σ1]
+      | _ => rfl
+
+/-- a mode handed to a statement list whose labels have type `lt` looks for a value of that type -/
+def ModeOK (lt : Option Ty) : Mode → Prop
+  | .seekCase T _ => lt = some T
+  | _ => True
+
+theorem bind_end (W : World) (env : Ast.Env) (rt : Ty) (fuel : Nat) (m : Mode) (acc : HlslAst.Stmts) (σ : Store) :
+    bindS m (Ast.execs W env rt fuel m acc σ) (fun m' σ' => endOf m' σ') = Ast.execs W env rt fuel m acc σ := by
+  cases h : Ast.execs W env rt fuel m acc σ with
+  | none => rfl
+  | some p =>
+    obtain ⟨fl, σ1⟩ := p
+    cases fl <;> try rfl
+    cases m with
+    | run => exact absurd h (execs_run_ne_seeking W env rt fuel acc σ σ1)
+    | _ => rfl
+
+theorem bind_step (m m' : Mode) (hm : m' = .run ∨ m' = m) (X : SR) (K : Mode → Store → SR) :
+    bindS m (match X with
+        | none => none
+        | some (.normal, σ2) => some (Flow.normal, σ2)
+        | some (.seeking, σ2) => endOf m' σ2
+        | some (fl, σ2) => some (fl, σ2)) K =
+      (match X with
+        | none => none
+        | some (.normal, σ2) => K .run σ2
+        | some (.seeking, σ2) => K m' σ2
+        | some (fl, σ2) => some (fl, σ2)) := by
+  cases X with
+  | none => rfl
+  | some p =>
+    obtain ⟨fl, σ2⟩ := p
+    cases fl <;> try rfl
+    cases hm with
+    | inl h => subst h; rfl
+    | inr h => subst h; cases m' <;> rfl
+
+theorem promote_astTy {sig : Sig} {vty : Var → Ty} {e : Ir.Expr} {T : Ty}
+    (ht : Ir.typeOf sig vty e = some T) (hT : T ≠ .lit) : Ast.promote (astTy e T) = T := by
+  by_cases hl : Ir.litlike e = true
+  · have := litlike_ty ht hl; subst this; simp [astTy, hl, Ast.promote]
+  · have hl' : Ir.litlike e = false := by simpa using hl
+    simp only [astTy, hl']
+    cases T <;> simp [Ast.promote] at hT ⊢
 
 mutual
 theorem sim_stmt {W : World} {env : Ast.Env} {cx : Ctx} (hag : Agree cx env) (rt : Ty) :
-    ∀ (s : Ir.Stmt) (s' : HlslAst.Stmt),
-      genStmt cx s = .ok s' → Ir.wtStmt W.sig cx.vty rt s = true → SimS W env rt s s'
-  | .expr e, s', hg, hwt => by
+    ∀ (s : Ir.Stmt) (s' : HlslAst.Stmt) (lt : Option Ty),
+      genStmt cx s = .ok s' → Ir.wtStmt W.sig cx.vty rt lt s = true →
+      ∀ m, ModeOK lt m → ∀ fuel σ, Ast.exec W env rt fuel m s' σ = Ir.exec W fuel m s σ
+  | .expr e, s', lt, hg, hwt => by
     cases hge : genExpr cx e with
     | error err => simp [genStmt, hge, Except.map] at hg
     | ok a =>
       simp [genStmt, hge, Except.map] at hg; subst hg
       obtain ⟨t, _, hs⟩ := sim_ok hag hge (by simpa [Ir.wtStmt] using hwt)
-      intro fuel σ
+      intro m _ fuel σ
       simp [Ast.exec, Ir.exec, hs.drop σ]
-  | .var id init, s', hg, hwt => by
+  | .var id init, s', lt, hg, hwt => by
     cases hv : genVarDef cx id init with
     | error err => simp [genStmt, hv] at hg
     | ok v =>
       obtain ⟨tn, name, i⟩ := v
       simp [genStmt, hv] at hg; subst hg
       have hvd := vardef_eq (W := W) hag hv (by simpa [Ir.wtStmt] using hwt)
-      intro fuel σ
+      intro m _ fuel σ
       simp [Ast.exec, Ir.exec, hvd.1, hvd.2 σ]
-  | .block b, s', hg, hwt => by
-    cases hb : genStmts cx b with
+  | .block b, s', lt, hg, hwt => by
+    cases hb : genStmtsAcc cx b .nil with
     | error err => simp [genStmt, hb, Except.map] at hg
     | ok b' =>
       simp [genStmt, hb, Except.map] at hg; subst hg
-      have ih := sim_stmts hag rt b b' hb (by simpa [Ir.wtStmt] using hwt)
-      intro fuel σ
-      simp [Ast.exec, Ir.exec, ih fuel σ]
-  | .ifThen c b, s', hg, hwt => by
+      have ih := sim_acc hag rt b .nil b' none hb (by simpa [Ir.wtStmt] using hwt) .run trivial
+      intro m _ fuel σ
+      simp [Ast.exec, Ir.exec, ih fuel σ, Ast.execs, endOf, bindS]
+  | .ifThen c b, s', lt, hg, hwt => by
     simp only [Ir.wtStmt, Bool.and_eq_true] at hwt
     cases hgc : genExpr cx c with
     | error err => simp [genStmt, hgc] at hg
     | ok c' =>
-      cases hb : genStmts cx b with
+      cases hb : genStmtsAcc cx b .nil with
       | error err => simp [genStmt, hgc, hb] at hg
       | ok b' =>
         simp [genStmt, hgc, hb] at hg; subst hg
         obtain ⟨t, _, hs⟩ := sim_ok hag hgc hwt.1
-        have ih := sim_stmts hag rt b b' hb hwt.2
-        intro fuel σ
+        have ih := sim_acc hag rt b .nil b' none hb hwt.2 .run trivial
+        intro m _ fuel σ
         simp only [Ast.exec, Ir.exec, Ast.condE, hs.1, hs.cond σ]
+        congr 1; funext _
         cases condOfB W.P (Ir.eval W c σ) with
         | none => rfl
-        | some r => obtain ⟨bv, σ1⟩ := r; cases bv <;> simp [ih fuel σ1]
-  | .ifElse c t f, s', hg, hwt => by
+        | some r => obtain ⟨bv, σ1⟩ := r; cases bv <;> simp [skip, ih fuel σ1, Ast.execs, endOf, bindS]
+  | .ifElse c t f, s', lt, hg, hwt => by
     simp only [Ir.wtStmt, Bool.and_eq_true] at hwt
     cases hgc : genExpr cx c with
     | error err => simp [genStmt, hgc] at hg
     | ok c' =>
-      cases hb : genStmts cx t with
+      cases hb : genStmtsAcc cx t .nil with
       | error err => simp [genStmt, hgc, hb] at hg
       | ok t' =>
-        cases hb2 : genStmts cx f with
+        cases hb2 : genStmtsAcc cx f .nil with
         | error err => simp [genStmt, hgc, hb, hb2] at hg
         | ok f' =>
           simp [genStmt, hgc, hb, hb2] at hg; subst hg
           obtain ⟨ty, _, hs⟩ := sim_ok hag hgc hwt.1.1
-          have ih1 := sim_stmts hag rt t t' hb hwt.1.2
-          have ih2 := sim_stmts hag rt f f' hb2 hwt.2
-          intro fuel σ
+          have ih1 := sim_acc hag rt t .nil t' none hb hwt.1.2 .run trivial
+          have ih2 := sim_acc hag rt f .nil f' none hb2 hwt.2 .run trivial
+          intro m _ fuel σ
           simp only [Ast.exec, Ir.exec, Ast.condE, hs.1, hs.cond σ]
+          congr 1; funext _
           cases condOfB W.P (Ir.eval W c σ) with
           | none => rfl
-          | some r => obtain ⟨bv, σ1⟩ := r; cases bv <;> simp [ih1 fuel σ1, ih2 fuel σ1]
-  | .for init cond inc b, s', hg, hwt => by
+          | some r =>
+            obtain ⟨bv, σ1⟩ := r
+            cases bv <;> simp [skip, ih1 fuel σ1, ih2 fuel σ1, Ast.execs, endOf, bindS]
+  | .for init cond inc b, s', lt, hg, hwt => by
     simp only [Ir.wtStmt, Bool.and_eq_true] at hwt
     obtain ⟨⟨⟨hwi, hwc⟩, hwn⟩, hwb⟩ := hwt
     cases hgi : genForInit cx init with
@@ -274,85 +570,175 @@ theorem sim_stmt {W : World} {env : Ast.Env} {cx : Ctx} (hag : Agree cx env) (rt
         cases hgn : genOptExpr cx inc with
         | error err => simp [genStmt, hgi, hgc, hgn] at hg
         | ok inc' =>
-          cases hb : genStmts cx b with
+          cases hb : genStmtsAcc cx b .nil with
           | error err => simp [genStmt, hgi, hgc, hgn, hb] at hg
           | ok b' =>
             simp [genStmt, hgi, hgc, hgn, hb] at hg; subst hg
-            have ih := sim_stmts hag rt b b' hb hwb
-            intro fuel σ
-            have hbody : (fun s => Ast.execs W env rt fuel b' s) = (fun s => Ir.execs W fuel b s) := by
-              funext s; exact ih fuel s
-            simp only [Ast.exec, Ir.exec, forinit_eq hag hgi hwi σ, cond_fn_eq hag hgc hwc, inc_fn_eq hag hgn hwn]
+            have ih := sim_acc hag rt b .nil b' none hb hwb .run trivial
+            intro m _ fuel σ
+            have hbody : (fun s => Ast.execs W env rt fuel .run b' s) = (fun s => Ir.execs W fuel .run b s) := by
+              funext s; simp [ih fuel s, Ast.execs, endOf, bindS]
+            simp only [Ast.exec, Ir.exec, forinit_eq hag hgi hwi σ, cond_fn_eq hag hgc hwc, inc_fn_eq hag hgn hwn, skip]
+            congr 1; funext _
             cases Ir.execForInit W init σ with
             | none => rfl
             | some σ0 => simp only []; rw [hbody]
-  | .while c b, s', hg, hwt => by
+  | .while c b, s', lt, hg, hwt => by
     simp only [Ir.wtStmt, Bool.and_eq_true] at hwt
     cases hgc : genExpr cx c with
     | error err => simp [genStmt, hgc] at hg
     | ok c' =>
-      cases hb : genStmts cx b with
+      cases hb : genStmtsAcc cx b .nil with
       | error err => simp [genStmt, hgc, hb] at hg
       | ok b' =>
         simp [genStmt, hgc, hb] at hg; subst hg
-        have ih := sim_stmts hag rt b b' hb hwt.2
+        have ih := sim_acc hag rt b .nil b' none hb hwt.2 .run trivial
         have hc : Ast.condFn W env (some c') = Ir.condFn W (some c) :=
           cond_fn_eq hag (by simp [genOptExpr, hgc, Except.map]) (by simpa [Ir.okOpt] using hwt.1)
-        intro fuel σ
-        have hbody : (fun s => Ast.execs W env rt fuel b' s) = (fun s => Ir.execs W fuel b s) := by
-          funext s; exact ih fuel s
-        simp only [Ast.exec, Ir.exec, hc, hbody]
-  | .doWhile b c, s', hg, hwt => by
+        intro m _ fuel σ
+        have hbody : (fun s => Ast.execs W env rt fuel .run b' s) = (fun s => Ir.execs W fuel .run b s) := by
+          funext s; simp [ih fuel s, Ast.execs, endOf, bindS]
+        simp only [Ast.exec, Ir.exec, hc, hbody, skip]
+  | .doWhile b c, s', lt, hg, hwt => by
     simp only [Ir.wtStmt, Bool.and_eq_true] at hwt
-    cases hb : genStmts cx b with
+    cases hb : genStmtsAcc cx b .nil with
     | error err => simp [genStmt, hb] at hg
     | ok b' =>
       cases hgc : genExpr cx c with
       | error err => simp [genStmt, hgc, hb] at hg
       | ok c' =>
         simp [genStmt, hgc, hb] at hg; subst hg
-        have ih := sim_stmts hag rt b b' hb hwt.1
+        have ih := sim_acc hag rt b .nil b' none hb hwt.1 .run trivial
         have hc : Ast.condFn W env (some c') = Ir.condFn W (some c) :=
           cond_fn_eq hag (by simp [genOptExpr, hgc, Except.map]) (by simpa [Ir.okOpt] using hwt.2)
-        intro fuel σ
-        have hbody : (fun s => Ast.execs W env rt fuel b' s) = (fun s => Ir.execs W fuel b s) := by
-          funext s; exact ih fuel s
-        simp only [Ast.exec, Ir.exec, hc, hbody]
-  | .break, s', hg, _ => by
-    simp [genStmt] at hg; subst hg; intro fuel σ; rfl
-  | .continue, s', hg, _ => by
-    simp [genStmt] at hg; subst hg; intro fuel σ; rfl
-  | .ret none, s', hg, _ => by
-    simp [genStmt, genOptExpr, Except.map] at hg; subst hg; intro fuel σ; rfl
-  | .ret (some e), s', hg, hwt => by
+        intro m _ fuel σ
+        have hbody : (fun s => Ast.execs W env rt fuel .run b' s) = (fun s => Ir.execs W fuel .run b s) := by
+          funext s; simp [ih fuel s, Ast.execs, endOf, bindS]
+        simp only [Ast.exec, Ir.exec, hc, hbody, skip]
+  | .break, s', lt, hg, _ => by
+    simp [genStmt] at hg; subst hg; intro m _ fuel σ; rfl
+  | .continue, s', lt, hg, _ => by
+    simp [genStmt] at hg; subst hg; intro m _ fuel σ; rfl
+  | .ret none, s', lt, hg, _ => by
+    simp [genStmt, genOptExpr, Except.map] at hg; subst hg; intro m _ fuel σ; rfl
+  | .ret (some e), s', lt, hg, hwt => by
     cases hge : genExpr cx e with
     | error err => simp [genStmt, genOptExpr, hge, Except.map] at hg
     | ok a =>
       simp [genStmt, genOptExpr, hge, Except.map] at hg; subst hg
       obtain ⟨ht, hs⟩ := sim_okT hag hge (by simpa [Ir.wtStmt] using hwt)
-      intro fuel σ
+      intro m _ fuel σ
       simp [Ast.exec, Ir.exec, hs.1, hs.conv ht σ]
-theorem sim_stmts {W : World} {env : Ast.Env} {cx : Ctx} (hag : Agree cx env) (rt : Ty) :
-    ∀ (b : Ir.Stmts) (b' : HlslAst.Stmts),
-      genStmts cx b = .ok b' → Ir.wtStmts W.sig cx.vty rt b = true → SimSs W env rt b b'
-  | .nil, b', hg, _ => by
-    simp [genStmts] at hg; subst hg; intro fuel σ; rfl
-  | .cons s r, b', hg, hwt => by
+  | .switch T c b, s', lt, hg, hwt => by
+    simp only [Ir.wtStmt, Bool.and_eq_true, decide_eq_true_eq] at hwt
+    obtain ⟨⟨hwc, hT⟩, hwb⟩ := hwt
+    cases hgc : genExpr cx c with
+    | error err => simp [genStmt, hgc] at hg
+    | ok c' =>
+      cases hb : genStmtsAcc cx b .nil with
+      | error err => simp [genStmt, hgc, hb] at hg
+      | ok b' =>
+        simp [genStmt, hgc, hb] at hg; subst hg
+        obtain ⟨ht, hs⟩ := sim_okT hag hgc hwc
+        have ih := sim_acc hag rt b .nil b' (some T) hb hwb
+        intro m _ fuel σ
+        have hbody : ∀ m, ModeOK (some T) m → ∀ σ, Ast.execs W env rt fuel m b' σ = Ir.execs W fuel m b σ := by
+          intro m hm σ
+          rw [ih m hm fuel σ]
+          cases m <;> simp [Ast.execs, endOf, bindS]
+        simp only [Ast.exec, Ir.exec, hs.1, promote_astTy ht hT, hs.conv ht σ]
+        congr 1; funext _
+        cases Ir.eval W c σ with
+        | none => rfl
+        | some p =>
+          obtain ⟨v, σ1⟩ := p
+          simp only []
+          rw [hbody (.seekCase T v) rfl σ1]
+          congr 1; funext s
+          exact hbody .seekDefault trivial s
+  | .caseLabel c, s', lt, hg, hwt => by
+    cases hgl : genLiteral c with
+    | error err => simp [genStmt, hgl] at hg
+    | ok e =>
+      simp [genStmt, hgl] at hg; subst hg
+      simp only [Ir.wtStmt, Bool.or_eq_true, Bool.and_eq_true, decide_eq_true_eq] at hwt
+      have hs := sim_lit W env c e hgl
+      have ht : Ir.typeOf W.sig cx.vty (.lit c) = some c.ty := by simp [Ir.typeOf]
+      intro m hm fuel σ
+      cases m with
+      | run => simp [Ast.exec, Ir.exec, endOf]
+      | seekDefault => simp [Ast.exec, Ir.exec, endOf]
+      | seekCase T v =>
+        simp only [ModeOK] at hm
+        -- the emitted label, converted to `T`, is the IR constant converted to `T`
+        have key : Ast.convR W.P (astTy (.lit c) c.ty) T (Ast.eval W env e σ) =
+            (match castVal W.P T (Ir.constVal c) with | none => none | some x => some (x, σ)) := by
+          cases hwt with
+          | inl h =>
+            have hTT : T = c.ty := by rw [h] at hm; exact (Option.some.inj hm).symm
+            subst hTT
+            rw [hs.conv ht σ]
+            cases c <;> simp [Ir.eval, Ir.constVal, castVal, Const.ty]
+          | inr h =>
+            have hl : Ir.litlike (.lit c) = false := by
+              cases c <;> simp [Const.ty] at h <;> simp [Ir.litlike]
+            rw [(hs.plain hl).2 σ]
+            simp only [astTy, hl, h.1, Ir.eval, Ast.convR, Ast.convert]
+            by_cases hT : Ty.lit = T
+            · subst hT
+              cases c <;> simp [Const.ty] at h <;> simp [Ir.constVal, castVal]
+            · have hT' : ¬ ((if false = true then Ty.lit else Ty.lit) = T) := by simpa using hT
+              simp only [hT', if_false]
+              cases castVal W.P T (Ir.constVal c) <;> rfl
+        simp only [Ast.exec, Ir.exec, hs.1, key, endOf]
+        cases hcv : castVal W.P T (Ir.constVal c) with
+        | none => rfl
+        | some x => by_cases hv : x = v <;> simp [hv]
+  | .defaultLabel, s', lt, hg, _ => by
+    simp [genStmt] at hg; subst hg
+    intro m _ fuel σ
+    cases m <;> simp [Ast.exec, Ir.exec, endOf]
+theorem sim_acc {W : World} {env : Ast.Env} {cx : Ctx} (hag : Agree cx env) (rt : Ty) :
+    ∀ (b : Ir.Stmts) (acc acc' : HlslAst.Stmts) (lt : Option Ty),
+      genStmtsAcc cx b acc = .ok acc' → Ir.wtStmts W.sig cx.vty rt lt b = true →
+      ∀ m, ModeOK lt m → ∀ fuel σ,
+        Ast.execs W env rt fuel m acc' σ =
+          bindS m (Ast.execs W env rt fuel m acc σ) (fun m' σ' => Ir.execs W fuel m' b σ')
+  | .nil, acc, acc', lt, hg, _ => by
+    simp [genStmtsAcc] at hg; subst hg
+    intro m _ fuel σ
+    simp only [Ir.execs]
+    exact (bind_end W env rt fuel m acc σ).symm
+  | .cons s r, acc, acc', lt, hg, hwt => by
     simp only [Ir.wtStmts, Bool.and_eq_true] at hwt
     cases hs : genStmt cx s with
-    | error err => simp [genStmts, hs] at hg
+    | error err => simp [genStmtsAcc, hs] at hg
     | ok s' =>
-      cases hr : genStmts cx r with
-      | error err => simp [genStmts, hs, hr] at hg
-      | ok r' =>
-        simp [genStmts, hs, hr] at hg; subst hg
-        have h1 := sim_stmt hag rt s s' hs hwt.1
-        have h2 := sim_stmts hag rt r r' hr hwt.2
-        intro fuel σ
-        simp only [Ast.execs, Ir.execs, h1 fuel σ]
-        cases Ir.exec W fuel s σ with
-        | none => rfl
-        | some p => obtain ⟨fl, σ1⟩ := p; cases fl <;> simp [h2 fuel σ1]
+      simp only [genStmtsAcc, hs] at hg
+      have h1 := sim_stmt hag rt s s' lt hs hwt.1
+      have h2 := sim_acc hag rt r (pushStmt acc s') acc' lt hg hwt.2
+      intro m hm fuel σ
+      rw [h2 m hm fuel σ, execs_push]
+      cases hR : Ast.execs W env rt fuel m acc σ with
+      | none => rfl
+      | some p =>
+        obtain ⟨fl, σ1⟩ := p
+        cases fl with
+        | normal =>
+          change bindS m (Ast.execs W env rt fuel Mode.run (.cons s' .nil) σ1) (fun m' σ' => Ir.execs W fuel m' r σ') =
+            Ir.execs W fuel .run (.cons s r) σ1
+          rw [execs_single, h1 .run trivial fuel σ1, Ir.execs]
+          cases Ir.exec W fuel .run s σ1 with
+          | none => rfl
+          | some q => obtain ⟨fl2, σ2⟩ := q; cases fl2 <;> simp [bindS, endOf]
+        | seeking =>
+          change bindS m (Ast.execs W env rt fuel m (.cons s' .nil) σ1) (fun m' σ' => Ir.execs W fuel m' r σ') =
+            Ir.execs W fuel m (.cons s r) σ1
+          rw [execs_single, h1 m hm fuel σ1, Ir.execs]
+          cases Ir.exec W fuel m s σ1 with
+          | none => rfl
+          | some q => obtain ⟨fl2, σ2⟩ := q; cases fl2 <;> cases m <;> simp [bindS, endOf]
+        | _ => rfl
 end
 
 theorem params_eq {env : Ast.Env} {cx : Ctx} (hag : Agree cx env) :
@@ -389,27 +775,29 @@ theorem params_eq {env : Ast.Env} {cx : Ctx} (hag : Agree cx env) :
 /-- **function level**: running the emitted definition equals running the typed function -/
 theorem sim_func {W : World} {env : Ast.Env} {cx : Ctx} (hag : Agree cx env)
     {fn : Ir.Func} {afn : HlslAst.Func}
-    (hg : genFunc cx fn = .ok afn) (hwt : Ir.wtStmts W.sig cx.vty fn.ret fn.body = true) :
+    (hg : genFunc cx fn = .ok afn) (hwt : Ir.wtStmts W.sig cx.vty fn.ret none fn.body = true) :
     ∀ fuel vals σ, Ast.callFunc W env fuel afn vals σ = Ir.callFunc W fuel fn vals σ := by
-  simp only [genFunc] at hg
+  simp only [genFunc, genStmts] at hg
   cases hrt : typeName fn.ret with
   | error e => simp [hrt] at hg
   | ok rt =>
     cases hps : genParams cx fn.params with
     | error e => simp [hrt, hps] at hg
     | ok ps' =>
-      cases hb : genStmts cx fn.body with
+      cases hb : genStmtsAcc cx fn.body .nil with
       | error e => simp [hrt, hps, hb] at hg
       | ok b' =>
         simp [hrt, hps, hb] at hg; subst hg
         obtain ⟨h1, h2, h3, _⟩ := params_eq hag fn.params ps' hps
-        have ih := sim_stmts hag fn.ret fn.body b' hb hwt
+        have ih := sim_acc hag fn.ret fn.body .nil b' none hb hwt .run trivial
         intro fuel vals σ
         simp only [Ast.callFunc, Ir.callFunc, h1, typeName_tyOfName' hrt, h2 vals σ]
         by_cases hlen : vals.length ≠ fn.params.length
         · simp [hlen]
-        · simp only [hlen, if_false, ih fuel]
-          cases Ir.execs W fuel fn.body (Ir.bindParams fn.params vals σ) with
+        · have hrun : ∀ s, Ast.execs W env fn.ret fuel .run b' s = Ir.execs W fuel .run fn.body s := by
+            intro s; simp [ih fuel s, Ast.execs, endOf, bindS]
+          simp only [hlen, if_false, hrun]
+          cases Ir.execs W fuel .run fn.body (Ir.bindParams fn.params vals σ) with
           | none => rfl
           | some r => obtain ⟨fl, σ1⟩ := r; simp [h3 σ1]
 
@@ -417,14 +805,14 @@ theorem genFunc_facts {env : Ast.Env} {cx : Ctx} (hag : Agree cx env) {fn : Ir.F
     (hg : genFunc cx fn = .ok afn) :
     afn.name = cx.funcName fn.id ∧ Ast.tyOfName afn.ret = some fn.ret ∧
     Ast.paramSig afn.params = some (fn.params.map fun p => (p.2.1, p.2.2)) := by
-  simp only [genFunc] at hg
+  simp only [genFunc, genStmts] at hg
   cases hrt : typeName fn.ret with
   | error e => simp [hrt] at hg
   | ok rt =>
     cases hps : genParams cx fn.params with
     | error e => simp [hrt, hps] at hg
     | ok ps' =>
-      cases hb : genStmts cx fn.body with
+      cases hb : genStmtsAcc cx fn.body .nil with
       | error e => simp [hrt, hps, hb] at hg
       | ok b' =>
         simp [hrt, hps, hb] at hg; subst hg
@@ -472,7 +860,7 @@ theorem sig_eq {env : Ast.Env} {cx : Ctx} (hag : Agree cx env) {prog : List Ir.F
 /-- **program level**: the callable functions of the emitted program are those of the typed program, at every call depth -/
 theorem sim_phi {env : Ast.Env} {cx : Ctx} (hag : Agree cx env) {prog : List Ir.Func} {astProg : List HlslAst.Func}
     (hg : genProg cx prog = .ok astProg)
-    (hwt : ∀ fn ∈ prog, Ir.wtStmts (Ir.sigOf prog) cx.vty fn.ret fn.body = true) (P : Prim) (fuel : Nat) :
+    (hwt : ∀ fn ∈ prog, Ir.wtStmts (Ir.sigOf prog) cx.vty fn.ret none fn.body = true) (P : Prim) (fuel : Nat) :
     ∀ d, Ast.phi P env astProg fuel d = Ir.phi P prog fuel d
   | 0 => rfl
   | d + 1 => by
@@ -488,5 +876,6 @@ theorem sim_phi {env : Ast.Env} {cx : Ctx} (hag : Agree cx env) {prog : List Ir.
       simp only [h1]
       exact sim_func (W := { P := P, phi := Ir.phi P prog fuel d, sig := Ir.sigOf prog }) hag h2
         (hwt fn (List.mem_of_find?_eq_some hp)) fuel vals σ
+
 
 end RsslVerif.Lemmas.GenSem
